@@ -138,7 +138,8 @@ func VF_C07_c() {
 		if n == failAt {
 			return vfErrExec
 		}
-		// what a successful executeBlock leaves behind for the index code: state root and consensus status at blk
+		// what a successful executeBlock leaves behind for the index code: receipts, state root and consensus status at blk
+		vfWriteReceipts(u.cs, blk)
 		u.cs.sdb.SetRoot(blk.GetHeader().GetBlocksRootHash())
 		u.cs.Update(blk)
 		return nil
@@ -157,12 +158,23 @@ func VF_C07_c() {
 		vf.Assert(len(u.cc.updates) == b+1 && bytes.Equal(u.cc.updates[0].GetHash(), u.mainAt(f).Hash), "C07.c")
 		vf.Assert(bytes.Equal(u.cs.sdb.GetRoot(), top.Header.BlocksRootHash), "C07.c")
 		vfCheckChain("C07.c", u.cs, u.kv, u.newPath())
+		for _, blk := range u.newPath() {
+			vfCheckReceipts("C07.c", u.cs, blk)
+		}
+		vfCheckAbandoned("C07.c", u)
 		vfCheckMemPoolPut("C07.c", u)
 	} else {
 		vf.Reach("C07.d")
 		vf.Assert(err == vfErrExec, "C07.d")
 		vf.Assert(vfSameBlocks(executed, u.side[:failAt+1]), "C07.d")
-		vf.Assert(u.kv.Units == units, "C07.d")
+		// the only durable writes are the receipts of the new blocks executed before the failing one
+		wrote := 0
+		for _, blk := range u.side[:failAt] {
+			if len(blk.Body.Txs) > 0 {
+				wrote++
+			}
+		}
+		vf.Assert(u.kv.Units == units+wrote, "C07.d")
 		vf.Assert(len(u.log.Msgs) == 0, "C07.d")
 		vfCheckChain("C07.d", u.cs, u.kv, u.oldPath())
 	}
